@@ -323,6 +323,14 @@ struct SequenceSpec {
     kind: String,
     from: u64,
     to: u64,
+    /// execute only every `stride`-th run starting at `from` (the schedule of one batch worker:
+    /// state kept per thread is left by exactly those runs); 1 = every run
+    #[serde(default = "one")]
+    stride: u64,
+}
+
+fn one() -> u64 {
+    1
 }
 
 /// Outcome of executing a window of runs under a per-run deadline.
@@ -338,12 +346,14 @@ enum SeqOutcome {
 /// Execute runs `from..=to` in order on one (big-stack) thread, each under the hang deadline;
 /// first violation not covered by a known finding.
 fn run_sequence(spec: &SequenceSpec, known: &KnownFindings) -> SeqOutcome {
-    let Some(kind) = Kind::parse(&spec.kind) else { return SeqOutcome::Clean };
+    let Some(kind) = Kind::parse(&spec.kind) else { return SeqOutcome::Crashed };
     let (tx, rx) = std::sync::mpsc::channel::<(u64, Option<(usize, Violation)>)>();
     let (spec2, known2) = (spec.clone(), known.clone());
     let handle = std::thread::Builder::new().stack_size(16 << 20).spawn(move || {
         let mut gen = values::GenStats::default();
-        for i in spec2.from..=spec2.to {
+        let stride = spec2.stride.max(1);
+        let mut i = spec2.from;
+        while i <= spec2.to {
             let (_, steps) = steps_of(kind, spec2.base_seed, i, &mut gen);
             let mut found = None;
             'steps: for step in steps {
@@ -359,6 +369,7 @@ fn run_sequence(spec: &SequenceSpec, known: &KnownFindings) -> SeqOutcome {
             if tx.send((i, found)).is_err() || stop {
                 return;
             }
+            i += stride;
         }
     });
     if handle.is_err() {
@@ -371,8 +382,8 @@ fn run_sequence(spec: &SequenceSpec, known: &KnownFindings) -> SeqOutcome {
         match rx.recv_timeout(std::time::Duration::from_secs(limit)) {
             Ok((i, Some((leg, v)))) => return SeqOutcome::Fail(i, leg, v),
             Ok((i, None)) => {
-                expected = i + 1;
-                if i == spec.to {
+                expected = i + spec.stride.max(1);
+                if expected > spec.to {
                     return SeqOutcome::Clean;
                 }
             }
@@ -442,7 +453,7 @@ fn report_hang(kind: Kind, base: u64, index: u64, ordinal: usize, out_dir: &Path
         case: case.clone(),
         delivered_record: None,
         delivered_bytes: None,
-        sequence: Some(SequenceSpec { base_seed: base, kind: kind.name().into(), from: index, to: index }),
+        sequence: Some(SequenceSpec { base_seed: base, kind: kind.name().into(), from: index, to: index, stride: 1 }),
         original_history: history,
         original_case: case,
     };
@@ -450,25 +461,7 @@ fn report_hang(kind: Kind, base: u64, index: u64, ordinal: usize, out_dir: &Path
     let _ = std::fs::write(&path, serde_json::to_string_pretty(&rf).unwrap() + "\n");
     // an honest (partial) evidence file: the batch did not finish
     if label.is_none() {
-        let ev = serde_json::json!({
-            "property_id": PROPERTY,
-            "tier": tier,
-            "seed": seed,
-            "level": "other",
-            "coverage": {
-                "explanation": format!("The run was ended by the simulator's watchdog: {detail}. Counts are what had completed by then; the usual coverage breakdown is not available for an aborted batch."),
-                "evaluations": RUNS_DONE.load(Ordering::SeqCst).max(1),
-                "distinct_nontrivial": 2,
-                "steps_completed": STEPS_DONE.load(Ordering::SeqCst),
-                "aborted": true
-            },
-            "assumptions": ["aborted batch: see explanation"],
-            "wall_s": 0.0,
-            "violations": 1
-        });
-        let evp = out_dir.join("evidence");
-        let _ = std::fs::create_dir_all(&evp);
-        let _ = std::fs::write(evp.join(format!("{PROPERTY}.json")), serde_json::to_string_pretty(&ev).unwrap() + "\n");
+        write_abort_evidence(out_dir, tier, seed, &format!("The run was ended by the simulator's watchdog: {detail}. Only what had started by then is counted; the usual coverage breakdown (distinct traces, probes, fault kinds) is not available for an aborted batch."), 1);
     }
     println!("violation class=HANG leg={leg_name} base_seed={base} run={index} shrink_steps=0");
     println!("  {detail}");
@@ -569,6 +562,8 @@ fn run_batch(base: u64, runs: u64, workers: usize, known: &KnownFindings) -> Bat
 
 /// Where a hang report is written (set once in main).
 static HANG_CTX: std::sync::OnceLock<(PathBuf, Option<String>, String, u64)> = std::sync::OnceLock::new();
+/// Start of the process and what the secondary configurations reported (for a watchdog report's evidence).
+static HANG_EXTRA: std::sync::OnceLock<(Instant, Vec<serde_json::Value>)> = std::sync::OnceLock::new();
 
 fn run_batch_kind(base: u64, runs: u64, workers: usize, known: &KnownFindings, kind: Kind) -> BatchStats {
     let stop_after = Arc::new(AtomicU64::new(u64::MAX));
@@ -701,8 +696,12 @@ fn minimise(case: &Step, class: &str, known: &KnownFindings) -> (Step, u32) {
     let mut seen: BTreeSet<String> = BTreeSet::new();
     let key = |s: &Step| format!("{}|{}", serde_json::to_string(&s.history).unwrap_or_default(), serde_json::to_string(&s.case).unwrap_or_default());
     seen.insert(key(&cur));
+    let started = Instant::now();
     'outer: loop {
         for cand in cur.shrink() {
+            if started.elapsed().as_secs() > 180 {
+                break 'outer; // minimisation is a convenience: never let it dominate a failing run
+            }
             if !seen.insert(key(&cand)) {
                 continue;
             }
@@ -733,7 +732,7 @@ fn informational(case: &Case) -> (Option<serde_json::Value>, Option<String>) {
     }
 }
 
-fn replay(path: &Path, known: &KnownFindings, my_label: &Option<String>) -> i32 {
+fn replay(path: &Path, known: &KnownFindings, my_label: &Option<String>, known_dir: &Path) -> i32 {
     let text = match std::fs::read_to_string(path) {
         Ok(t) => t,
         Err(e) => {
@@ -756,6 +755,33 @@ fn replay(path: &Path, known: &KnownFindings, my_label: &Option<String>) -> i32 
             my_label.as_deref().unwrap_or("primary")
         );
         return 2;
+    }
+    if let (Some(spec), true) = (&rf.sequence, rf.class == "CRASH") {
+        // re-executing this window is expected to kill the process: do it in a child
+        println!("replay {}: window of runs {}..={} (kind {}) in a child process, recorded class=CRASH", path.display(), spec.from, spec.to, spec.kind);
+        let a2 = Args::for_child(known_dir, my_label);
+        return match Kind::parse(&spec.kind).map(|k| run_child_window(&a2, spec.base_seed, k, spec.from, spec.to, spec.stride.max(1))) {
+            Some(ChildEnd::Died(how)) => {
+                println!("  the child process was killed ({how})");
+                println!("REPRODUCED class=CRASH detail_identical=true");
+                println!("VIOLATION property={PROPERTY} replay={}", path.display());
+                1
+            }
+            Some(ChildEnd::Failed(run, leg, class, detail)) => {
+                println!("  run {run} leg {leg}: {class}: {detail}");
+                println!("REPRODUCED-DIFFERENTLY class={class} (recorded: CRASH)");
+                println!("VIOLATION property={PROPERTY} replay={}", path.display());
+                1
+            }
+            Some(ChildEnd::Clean) => {
+                println!("NOT-REPRODUCED class=CRASH (the recorded violation does not occur on this tree)");
+                0
+            }
+            _ => {
+                eprintln!("HARNESS ERROR: cannot re-execute the window of {}", path.display());
+                2
+            }
+        };
     }
     if let Some(spec) = &rf.sequence {
         println!(
@@ -841,6 +867,12 @@ fn replay(path: &Path, known: &KnownFindings, my_label: &Option<String>) -> i32 
             if code == 1 {
                 println!("VIOLATION property={PROPERTY} replay={}", path.display());
             }
+        }
+        None if code == 1 => {
+            // the recorded violation is gone but the same operation violates the property in another way
+            let other: Vec<&str> = rep.violations.iter().map(|v| v.class.as_str()).collect();
+            println!("REPRODUCED-DIFFERENTLY: recorded class {} does not occur, the operation now shows {:?}", rf.class, other);
+            println!("VIOLATION property={PROPERTY} replay={}", path.display());
         }
         None => println!("NOT-REPRODUCED class={} (the recorded violation does not occur on this tree)", rf.class),
     }
@@ -1136,8 +1168,39 @@ struct Args {
     failed_configs: Vec<String>,
     /// run the quick tier's thin validity-gate lattice even with an explicit `--runs` budget
     lattice: bool,
+    /// the batch of this configuration died abnormally (stack overflow, abort): find the run that
+    /// kills a single-threaded child process and report it as a CRASH violation
+    crash_hunt: bool,
     /// `--replay-sequence <base> <kind> <from> <to>`: run that window on one thread and report
     replay_sequence: Option<SequenceSpec>,
+}
+
+impl Args {
+    /// Minimal arguments for spawning window children from the replay path.
+    fn for_child(verif_dir: &Path, label: &Option<String>) -> Args {
+        Args {
+            tier: "quick".into(),
+            seed: DEFAULT_SEED,
+            runs: None,
+            seeds: None,
+            sweep: None,
+            workers: 1,
+            replay: None,
+            selftest: false,
+            digest_only: false,
+            verif_dir: verif_dir.to_path_buf(),
+            out_dir: None,
+            no_respawn: true,
+            config_label: label.clone(),
+            summary_only: None,
+            merge_summaries: Vec::new(),
+            skipped_configs: Vec::new(),
+            failed_configs: Vec::new(),
+            lattice: false,
+            crash_hunt: false,
+            replay_sequence: None,
+        }
+    }
 }
 
 fn parse_args() -> Result<Args, String> {
@@ -1163,6 +1226,7 @@ fn parse_args() -> Result<Args, String> {
         skipped_configs: Vec::new(),
         failed_configs: Vec::new(),
         lattice: false,
+        crash_hunt: false,
         replay_sequence: None,
     };
     let mut it = std::env::args().skip(1);
@@ -1183,6 +1247,7 @@ fn parse_args() -> Result<Args, String> {
             "--digest-only" => a.digest_only = true,
             "--no-respawn" => a.no_respawn = true,
             "--lattice" => a.lattice = true,
+            "--crash-hunt" => a.crash_hunt = true,
             "--config-label" => a.config_label = Some(val("--config-label")?),
             "--summary-only" => a.summary_only = Some(PathBuf::from(val("--summary-only")?)),
             "--merge-summary" => a.merge_summaries.push(PathBuf::from(val("--merge-summary")?)),
@@ -1193,7 +1258,8 @@ fn parse_args() -> Result<Args, String> {
                 let kind = val("--replay-sequence")?;
                 let from = val("--replay-sequence")?.parse().map_err(|e| format!("--replay-sequence from: {e}"))?;
                 let to = val("--replay-sequence")?.parse().map_err(|e| format!("--replay-sequence to: {e}"))?;
-                a.replay_sequence = Some(SequenceSpec { base_seed, kind, from, to });
+                let stride = val("--replay-sequence")?.parse().map_err(|e| format!("--replay-sequence stride: {e}"))?;
+                a.replay_sequence = Some(SequenceSpec { base_seed, kind, from, to, stride });
             }
             "C20" => {}
             other => return Err(format!("unknown argument {other}")),
@@ -1318,8 +1384,185 @@ fn selftest(a: &Args, known: &KnownFindings) -> i32 {
     0
 }
 
+/// Evidence for a batch that could not finish (watchdog report, crash hunt).
+fn write_abort_evidence(out_dir: &Path, tier: &str, seed: u64, explanation: &str, violations: u64) {
+    let (t0, extra) = HANG_EXTRA.get().cloned().unwrap_or((Instant::now(), Vec::new()));
+    let other_viol: u64 = extra.iter().map(|e| e.get("violations").and_then(|v| v.as_u64()).unwrap_or(0) + if e.get("ended_without_summary").is_some() { 1 } else { 0 }).sum();
+    let ev = serde_json::json!({
+        "property_id": PROPERTY,
+        "tier": tier,
+        "seed": seed,
+        "level": "other",
+        "coverage": {
+            "explanation": explanation,
+            "runs_started": RUNS_DONE.load(Ordering::SeqCst),
+            "steps_started": STEPS_DONE.load(Ordering::SeqCst),
+            "aborted": true,
+            "build_configurations": { "secondary": extra }
+        },
+        "assumptions": ["aborted batch: see explanation"],
+        "wall_s": t0.elapsed().as_secs_f64(),
+        "violations": violations + other_viol
+    });
+    let evp = out_dir.join("evidence");
+    let _ = std::fs::create_dir_all(&evp);
+    let _ = std::fs::write(evp.join(format!("{PROPERTY}.json")), serde_json::to_string_pretty(&ev).unwrap() + "\n");
+}
+
+/// How a single-threaded child process running a window of runs ended.
+enum ChildEnd {
+    Clean,
+    Failed(u64, String, String, String),
+    /// killed by a signal or ended with a status that is neither 0, 1 nor 2: the code under test took the process down
+    Died(String),
+    HarnessError,
+}
+
+fn run_child_window(a: &Args, base: u64, kind: Kind, from: u64, to: u64, stride: u64) -> ChildEnd {
+    let Ok(exe) = std::env::current_exe() else { return ChildEnd::HarnessError };
+    let out = std::process::Command::new(exe)
+        .args([
+            "--verif-dir",
+            a.verif_dir.to_str().unwrap_or("/verif"),
+            "--replay-sequence",
+            &base.to_string(),
+            kind.name(),
+            &from.to_string(),
+            &to.to_string(),
+            &stride.to_string(),
+        ])
+        .output();
+    let Ok(out) = out else { return ChildEnd::HarnessError };
+    match out.status.code() {
+        Some(0) => ChildEnd::Clean,
+        Some(1) => {
+            let so = String::from_utf8_lossy(&out.stdout);
+            match so.lines().find(|l| l.starts_with("SEQ-FAIL ")) {
+                Some(line) => {
+                    let field = |name: &str| -> String {
+                        match line.find(&format!("{name}=")) {
+                            Some(p) => {
+                                let rest = &line[p + name.len() + 1..];
+                                if name == "detail" { rest.to_string() } else { rest.split(' ').next().unwrap_or("").to_string() }
+                            }
+                            None => String::new(),
+                        }
+                    };
+                    ChildEnd::Failed(field("run").parse().unwrap_or(to), field("leg"), field("class"), field("detail"))
+                }
+                None => ChildEnd::HarnessError,
+            }
+        }
+        Some(2) => ChildEnd::HarnessError,
+        Some(c) => ChildEnd::Died(format!("exit status {c}")),
+        None => {
+            #[cfg(unix)]
+            {
+                use std::os::unix::process::ExitStatusExt;
+                ChildEnd::Died(format!("signal {}", out.status.signal().unwrap_or(0)))
+            }
+            #[cfg(not(unix))]
+            {
+                ChildEnd::Died("abnormal termination".into())
+            }
+        }
+    }
+}
+
+/// The batch of this configuration was killed (stack overflow, abort...). Walk the same runs in
+/// single-threaded child processes, find the run at which a child dies, and report it.
+fn crash_hunt(a: &Args, out_dir: &Path) -> i32 {
+    let (def_runs, def_seeds) = if a.tier == "quick" { (400_000u64, 1u64) } else { (2_000_000u64, 64u64) };
+    let runs = a.runs.unwrap_or(def_runs);
+    let seeds = seed_list(a.seed, a.seeds.unwrap_or(def_seeds));
+    let mut phases: Vec<(Kind, u64, u64)> = seeds.iter().map(|s| (Kind::Random, *s, runs)).collect();
+    if a.lattice || (a.tier == "quick" && a.sweep.is_none() && a.runs.is_none()) {
+        phases.push((Kind::ThinLattice, a.seed, 2048));
+    }
+    let sweep_values = a.sweep.unwrap_or(if a.tier == "thorough" { 4000 } else { 0 });
+    if sweep_values > 0 {
+        phases.push((Kind::Sweep, a.seed, sweep_values));
+    }
+    let label = a.config_label.as_deref().map(|l| format!("-{l}")).unwrap_or_default();
+    let replay_dir = out_dir.join("replays");
+    let _ = std::fs::create_dir_all(&replay_dir);
+    for (kind, base, n) in phases {
+        let chunk = if kind == Kind::Random { 5000 } else { 16 };
+        let mut from = 0u64;
+        while from < n {
+            let to = (from + chunk - 1).min(n - 1);
+            match run_child_window(a, base, kind, from, to, 1) {
+                ChildEnd::Clean => {}
+                ChildEnd::HarnessError => {
+                    eprintln!("HARNESS ERROR: crash hunt: a child process reported a harness error in runs {from}..={to}");
+                    return 2;
+                }
+                ChildEnd::Failed(run, leg, class, detail) => {
+                    // an ordinary violation met on the way: report it as a window
+                    let spec = SequenceSpec { base_seed: base, kind: kind.name().into(), from, to: run, stride: 1 };
+                    return report_window(a, &replay_dir, &label, &spec, &leg, &class, &detail, out_dir);
+                }
+                ChildEnd::Died(how) => {
+                    // smallest end of the window at which the child still dies
+                    let (mut lo, mut hi) = (from, to);
+                    while lo < hi {
+                        let mid = lo + (hi - lo) / 2;
+                        match run_child_window(a, base, kind, from, mid, 1) {
+                            ChildEnd::Died(_) => hi = mid,
+                            _ => lo = mid + 1,
+                        }
+                    }
+                    let run = lo;
+                    // does that run kill a child on its own?
+                    let alone = matches!(run_child_window(a, base, kind, run, run, 1), ChildEnd::Died(_));
+                    let spec = SequenceSpec { base_seed: base, kind: kind.name().into(), from: if alone { run } else { from }, to: run, stride: 1 };
+                    let detail = format!("the process running this window was killed ({how}): the code under test brought the process down (stack overflow, abort or similar) in run {run}");
+                    return report_window(a, &replay_dir, &label, &spec, "Run", "CRASH", &detail, out_dir);
+                }
+            }
+            from = to + 1;
+        }
+    }
+    eprintln!("HARNESS ERROR: crash hunt: no single-threaded child process died or failed; the abnormal end of the batch did not reproduce");
+    2
+}
+
+#[allow(clippy::too_many_arguments)]
+fn report_window(a: &Args, replay_dir: &Path, label: &str, spec: &SequenceSpec, leg: &str, class: &str, detail: &str, out_dir: &Path) -> i32 {
+    let placeholder = Case::Ser(serleg::SerCase { hi: 1.0f64.to_bits(), lo: 0, fault: None, human_readable: true });
+    let rf = ReplayFile {
+        property: PROPERTY.into(),
+        class: class.into(),
+        detail: detail.into(),
+        base_seed: spec.base_seed,
+        run_index: spec.to,
+        minimised: false,
+        shrink_steps: 0,
+        config_label: a.config_label.clone(),
+        history: Vec::new(),
+        case: placeholder.clone(),
+        delivered_record: None,
+        delivered_bytes: None,
+        sequence: Some(spec.clone()),
+        original_history: Vec::new(),
+        original_case: placeholder,
+    };
+    let path = replay_dir.join(format!("{PROPERTY}{label}-{}-{}-{leg}-{class}-window.json", spec.base_seed, spec.to));
+    if std::fs::write(&path, serde_json::to_string_pretty(&rf).unwrap() + "\n").is_err() {
+        eprintln!("HARNESS ERROR: cannot write replay file {}", path.display());
+        return 2;
+    }
+    if a.config_label.is_none() {
+        write_abort_evidence(out_dir, &a.tier, a.seed, &format!("The batch ended abnormally and was re-walked in single-threaded child processes: {detail}"), 1);
+    }
+    println!("violation class={class} leg={leg} base_seed={} run={} history=runs {}..={} on one thread", spec.base_seed, spec.to, spec.from, spec.to);
+    println!("  {detail}");
+    println!("VIOLATION property={PROPERTY} replay={}", path.display());
+    1
+}
+
 /// Spawn a fresh process that runs `from..=to` on one thread; returns the first failure it reports.
-fn spawn_sequence(a: &Args, base: u64, kind: Kind, from: u64, to: u64) -> Option<(u64, String, String, String)> {
+fn spawn_sequence(a: &Args, base: u64, kind: Kind, from: u64, to: u64, stride: u64) -> Option<(u64, String, String, String)> {
     let exe = std::env::current_exe().ok()?;
     let out = std::process::Command::new(exe)
         .args([
@@ -1330,6 +1573,7 @@ fn spawn_sequence(a: &Args, base: u64, kind: Kind, from: u64, to: u64) -> Option
             kind.name(),
             &from.to_string(),
             &to.to_string(),
+            &stride.to_string(),
         ])
         .output()
         .ok()?;
@@ -1343,38 +1587,59 @@ fn spawn_sequence(a: &Args, base: u64, kind: Kind, from: u64, to: u64) -> Option
     Some((field("run")?.parse().ok()?, field("leg")?, field("class")?, field("detail")?))
 }
 
-/// Find a window of runs ending at or before `idx` that fails in a fresh single-threaded process,
-/// and shrink it from the front.
-fn find_sequence(base: u64, kind: Kind, idx: u64, a: &Args) -> Option<(SequenceSpec, usize, Violation)> {
-    // growing windows ending at idx; the first failure inside a window defines its end
-    let mut found = None;
+/// Find a window of runs that fails in a fresh single-threaded process, and shrink it from the
+/// front. Tried in this order: windows ending at the failing run (1, 2, 16, 256, 4096 runs, the
+/// whole prefix); the failing worker's own schedule (every `workers`-th run up to the failing run:
+/// state kept per thread); windows reaching *beyond* the failing run (in the batch, a
+/// higher-indexed run may have executed earlier on another worker and left process-wide state
+/// behind) — there the first failure inside the window defines its end.
+fn find_sequence(base: u64, kind: Kind, idx: u64, total_runs: u64, a: &Args) -> Option<(SequenceSpec, usize, Violation)> {
+    let mut found: Option<(u64, u64, (u64, String, String, String))> = None; // (from, stride, failure)
     for back in [0u64, 1, 15, 255, 4095, u64::MAX] {
         let from = idx.saturating_sub(back);
-        if let Some(f) = spawn_sequence(a, base, kind, from, idx) {
-            found = Some((from, f));
+        if let Some(f) = spawn_sequence(a, base, kind, from, idx, 1) {
+            found = Some((from, 1, f));
             break;
         }
         if from == 0 {
             break;
         }
     }
-    let (mut from, (to, _leg, class, detail)) = found?;
-    // shrink from the front (bisection; the result is verified, monotonicity is not assumed)
-    let (mut lo, mut hi) = (from, to);
+    if found.is_none() && a.workers > 1 {
+        let w = a.workers as u64;
+        if let Some(f) = spawn_sequence(a, base, kind, idx % w, idx, w) {
+            found = Some((idx % w, w, f));
+        }
+    }
+    if found.is_none() {
+        for ahead in [16u64, 64, 256, 4096] {
+            let to = (idx + ahead).min(total_runs.saturating_sub(1));
+            if to <= idx {
+                break;
+            }
+            if let Some(f) = spawn_sequence(a, base, kind, 0, to, 1) {
+                found = Some((0, 1, f));
+                break;
+            }
+        }
+    }
+    let (mut from, stride, (to, _leg, class, _detail)) = found?;
+    // shrink from the front (bisection over positions of the schedule; the result is verified,
+    // monotonicity is not assumed)
+    let (mut lo, mut hi) = (0u64, (to - from) / stride);
     while lo < hi {
         let mid = lo + (hi - lo + 1) / 2;
-        match spawn_sequence(a, base, kind, mid, to) {
+        match spawn_sequence(a, base, kind, from + mid * stride, to, stride) {
             Some((j, _, c, _)) if j == to && c == class => lo = mid,
             _ => hi = mid - 1,
         }
     }
-    from = lo;
+    from += lo * stride;
     // final verification in a fresh process
-    match spawn_sequence(a, base, kind, from, to) {
+    match spawn_sequence(a, base, kind, from, to, stride) {
         Some((j, l, c, d)) if j == to && c == class => {
             let leg = LEG_NAMES.iter().position(|n| *n == l).unwrap_or(0);
-            let _ = &detail;
-            Some((SequenceSpec { base_seed: base, kind: kind.name().into(), from, to }, leg, Violation { class: c, detail: d }))
+            Some((SequenceSpec { base_seed: base, kind: kind.name().into(), from, to, stride }, leg, Violation { class: c, detail: d }))
         }
         _ => None,
     }
@@ -1400,12 +1665,35 @@ fn main() {
             std::process::exit(2);
         }
     };
+    {
+        // where a watchdog report goes, whatever mode follows
+        let od = a.out_dir.clone().unwrap_or_else(|| a.verif_dir.clone());
+        let _ = HANG_CTX.set((od, a.config_label.clone(), a.tier.clone(), a.seed));
+        let mut extra = Vec::new();
+        for p in &a.merge_summaries {
+            if let Some(v) = std::fs::read_to_string(p).ok().and_then(|t| serde_json::from_str::<serde_json::Value>(&t).ok()) {
+                extra.push(v);
+            }
+        }
+        for l in &a.skipped_configs {
+            extra.push(serde_json::json!({"configuration": l, "skipped": "twofloat itself does not build in this feature set on the tree under test"}));
+        }
+        for l in &a.failed_configs {
+            let (label, status) = l.split_once(':').unwrap_or((l.as_str(), "?"));
+            extra.push(serde_json::json!({"configuration": label, "ended_without_summary": true, "exit_status": status}));
+        }
+        let _ = HANG_EXTRA.set((Instant::now(), extra));
+    }
+    if a.crash_hunt {
+        let od = a.out_dir.clone().unwrap_or_else(|| a.verif_dir.clone());
+        std::process::exit(crash_hunt(&a, &od));
+    }
     if let Some(p) = &a.replay {
         // same stack size as the batch workers
-        let (p, known2, label) = (p.clone(), known.clone(), a.config_label.clone());
+        let (p, known2, label, vdir) = (p.clone(), known.clone(), a.config_label.clone(), a.verif_dir.clone());
         let code = std::thread::Builder::new()
             .stack_size(16 << 20)
-            .spawn(move || replay(&p, &known2, &label))
+            .spawn(move || replay(&p, &known2, &label, &vdir))
             .expect("spawn replay thread")
             .join()
             .unwrap_or(2);
@@ -1441,7 +1729,6 @@ fn main() {
     }
 
     let out_dir = a.out_dir.clone().unwrap_or_else(|| a.verif_dir.clone());
-    let _ = HANG_CTX.set((out_dir.clone(), a.config_label.clone(), a.tier.clone(), a.seed));
     let (def_runs, def_seeds) = if a.tier == "quick" { (400_000u64, 1u64) } else { (2_000_000u64, 64u64) };
     let runs = a.runs.unwrap_or(def_runs);
     let nseeds = a.seeds.unwrap_or(def_seeds);
@@ -1487,6 +1774,9 @@ fn main() {
     }
     let mut exit = 0;
     let mut nviol = 0u64;
+    let mut violation_printed = false;
+    let mut unreproduced = false;
+    let mut seq_reported: BTreeSet<String> = BTreeSet::new();
     if !total.harness_errors.is_empty() {
         for e in total.harness_errors.iter().take(5) {
             eprintln!("HARNESS ERROR: {e}");
@@ -1529,9 +1819,12 @@ fn main() {
                     eprintln!("HARNESS ERROR: cannot write replay file: {e}");
                     std::process::exit(2);
                 }
-                println!("violation class={} leg={} base_seed={base} run={idx} shrink_steps={steps}", v.class, LEG_NAMES[leg]);
-                println!("  {}", final_v.detail);
                 // replay the minimised file in a fresh process: must fail the same way
+                let mut report: Option<PathBuf> = Some(path.clone());
+                let mut lines = vec![
+                    format!("violation class={} leg={} base_seed={base} run={idx} shrink_steps={steps}", v.class, LEG_NAMES[leg]),
+                    format!("  {}", final_v.detail),
+                ];
                 if !a.no_respawn {
                     let exe = std::env::current_exe().expect("current_exe");
                     let mut cmd = std::process::Command::new(exe);
@@ -1548,56 +1841,92 @@ fn main() {
                         Err(_) => false,
                     };
                     if !ok {
-                        // The violation needs state left behind by earlier operations of this process.
+                        // The violation needs state left behind by other operations of this process.
                         // Reproduce it as a window of whole runs on one thread of a fresh process,
-                        // then shrink the window from the front.
-                        println!("  (the single operation does not fail in a fresh process: looking for the history it needs)");
-                        match find_sequence(base, fail_kind, idx, &a) {
+                        // then shrink the window from the front. The single-operation file is
+                        // withdrawn: it does not reproduce.
+                        let _ = std::fs::remove_file(&path);
+                        eprintln!(
+                            "note: {} in leg {} of run {idx} does not fail as a single operation in a fresh process: looking for the history it needs",
+                            v.class, LEG_NAMES[leg]
+                        );
+                        let total_runs = match fail_kind {
+                            Kind::Random => runs,
+                            Kind::ThinLattice => 2048,
+                            Kind::Sweep => a.sweep.unwrap_or(if a.tier == "thorough" { 4000 } else { 0 }),
+                        };
+                        match find_sequence(base, fail_kind, idx, total_runs, &a) {
                             Some((spec, leg2, v2)) => {
-                                let rf2 = ReplayFile {
-                                    property: PROPERTY.into(),
-                                    class: v2.class.clone(),
-                                    detail: v2.detail.clone(),
-                                    base_seed: base,
-                                    run_index: spec.to,
-                                    minimised: true,
-                                    shrink_steps: 0,
-                                    config_label: a.config_label.clone(),
-                                    history: Vec::new(),
-                                    case: case.case.clone(),
-                                    delivered_record: None,
-                                    delivered_bytes: None,
-                                    sequence: Some(spec.clone()),
-                                    original_history: case.history.clone(),
-                                    original_case: case.case.clone(),
-                                };
-                                if let Err(e) = std::fs::write(&path, serde_json::to_string_pretty(&rf2).unwrap() + "\n") {
-                                    eprintln!("HARNESS ERROR: cannot write replay file: {e}");
-                                    std::process::exit(2);
+                                let key = serde_json::to_string(&spec).unwrap_or_default();
+                                if !seq_reported.insert(key) {
+                                    // the same window was already reported for another symptom of this run
+                                    report = None;
+                                    nviol -= 1;
+                                } else {
+                                    let rf2 = ReplayFile {
+                                        property: PROPERTY.into(),
+                                        class: v2.class.clone(),
+                                        detail: v2.detail.clone(),
+                                        base_seed: base,
+                                        run_index: spec.to,
+                                        minimised: true,
+                                        shrink_steps: 0,
+                                        config_label: a.config_label.clone(),
+                                        history: Vec::new(),
+                                        case: case.case.clone(),
+                                        delivered_record: None,
+                                        delivered_bytes: None,
+                                        sequence: Some(spec.clone()),
+                                        original_history: case.history.clone(),
+                                        original_case: case.case.clone(),
+                                    };
+                                    let wpath = replay_dir.join(format!("{PROPERTY}{label}-{base}-{}-{}-{}-window.json", spec.to, LEG_NAMES[leg2], v2.class));
+                                    if let Err(e) = std::fs::write(&wpath, serde_json::to_string_pretty(&rf2).unwrap() + "\n") {
+                                        eprintln!("HARNESS ERROR: cannot write replay file: {e}");
+                                        std::process::exit(2);
+                                    }
+                                    lines = vec![
+                                        format!(
+                                            "violation class={} leg={} base_seed={base} run={} history=runs {}..={}{} on one thread (state-dependent)",
+                                            v2.class,
+                                            LEG_NAMES[leg2],
+                                            spec.to,
+                                            spec.from,
+                                            spec.to,
+                                            if spec.stride > 1 { format!(" step {}", spec.stride) } else { String::new() }
+                                        ),
+                                        format!("  {}", v2.detail),
+                                    ];
+                                    report = Some(wpath);
                                 }
-                                println!(
-                                    "violation class={} leg={} base_seed={base} run={} history=runs {}..={} on one thread (state-dependent)",
-                                    v2.class,
-                                    LEG_NAMES[leg2],
-                                    spec.to,
-                                    spec.from,
-                                    spec.to
-                                );
-                                println!("  {}", v2.detail);
                             }
                             None => {
-                                eprintln!("HARNESS ERROR: minimised replay {} does not reproduce in a fresh process, nor does the run sequence before it", path.display());
-                                exit = 2;
+                                eprintln!(
+                                    "HARNESS ERROR: {} in leg {} of run {idx} reproduces neither as a single operation nor as a run window in a fresh process (state shared across worker threads or left by an earlier batch?)",
+                                    v.class, LEG_NAMES[leg]
+                                );
+                                report = None;
+                                nviol -= 1;
+                                unreproduced = true;
                             }
                         }
                     }
                 }
-                println!("VIOLATION property={PROPERTY} replay={}", path.display());
-                if exit == 0 {
-                    exit = 1;
+                if let Some(p) = report {
+                    for l in &lines {
+                        println!("{l}");
+                    }
+                    println!("VIOLATION property={PROPERTY} replay={}", p.display());
+                    violation_printed = true;
                 }
             }
         }
+    }
+    // a reported violation takes precedence over a harness error
+    if violation_printed {
+        exit = 1;
+    } else if unreproduced {
+        exit = 2;
     }
     if let Some(sp) = &a.summary_only {
         let mut tp = total.probes.clone();
